@@ -463,3 +463,374 @@ Proof.
   - exists DrainDone. eexists. split; [exact I | reflexivity].
   - exists (DrainTake e). rewrite entry_eqb_refl. eexists. split; [exact I | reflexivity].
 Qed.
+
+(* ---------- the specification machine accepts every visible trace of the model ---------- *)
+
+Lemma lookupN_setN g k v m : lookupN g (setN k v m) = if g =? k then v else lookupN g m.
+Proof.
+  induction m as [|[k' v'] m IH]; cbn.
+  - destruct (g =? k); reflexivity.
+  - destruct (k =? k') eqn:E; cbn.
+    + apply N.eqb_eq in E. subst k'. destruct (g =? k); reflexivity.
+    + rewrite IH. destruct (g =? k') eqn:E'; [|reflexivity].
+      apply N.eqb_eq in E'. subst k'. destruct (g =? k) eqn:E''; [|reflexivity].
+      apply N.eqb_eq in E''. subst. rewrite N.eqb_refl in E. discriminate.
+Qed.
+
+Lemma lookupE_In x m c : lookupE x m = Some c -> In (x, c) m.
+Proof.
+  induction m as [|[e v] m IH]; cbn; [discriminate|]. destruct (entry_eqb x e) eqn:E.
+  - apply entry_eqb_eq in E. subst. intros X. inversion X. now left.
+  - intros X. right. auto.
+Qed.
+Lemma In_lookupE x c m : In (x, c) m -> lookupE x m <> None.
+Proof.
+  induction m as [|[e v] m IH]; cbn; [contradiction|]. intros [X | X].
+  - inversion X; subst. rewrite entry_eqb_refl. discriminate.
+  - destruct (entry_eqb x e); [discriminate | auto].
+Qed.
+Lemma lookupE_app x m e t :
+  lookupE x (m ++ [(e, t)]) = match lookupE x m with Some c => Some c | None => if entry_eqb x e then Some t else None end.
+Proof. induction m as [|[e' v] m IH]; cbn; [reflexivity|]. destruct (entry_eqb x e'); [reflexivity | exact IH]. Qed.
+Lemma entry_eqb_sym a b : entry_eqb a b = entry_eqb b a.
+Proof.
+  destruct (entry_eqb a b) eqn:E.
+  - apply entry_eqb_eq in E. subst. now rewrite entry_eqb_refl.
+  - destruct (entry_eqb b a) eqn:E'; [|reflexivity]. apply entry_eqb_eq in E'. subst. rewrite entry_eqb_refl in E. discriminate.
+Qed.
+Lemma lookupE_removeE x e m : lookupE x (removeE e m) = if entry_eqb e x then None else lookupE x m.
+Proof.
+  unfold removeE. induction m as [|[e' v] m IH]; cbn.
+  - destruct (entry_eqb e x); reflexivity.
+  - destruct (entry_eqb e e') eqn:E; cbn.
+    + rewrite IH. apply entry_eqb_eq in E. subst e'. rewrite (entry_eqb_sym x e). destruct (entry_eqb e x); reflexivity.
+    + rewrite IH. destruct (entry_eqb x e') eqn:E'; [|reflexivity].
+      apply entry_eqb_eq in E'. subst e'. rewrite E. reflexivity.
+Qed.
+Lemma In_removeE x r e m : In (x, r) (removeE e m) <-> In (x, r) m /\ x <> e.
+Proof.
+  unfold removeE. rewrite filter_In. cbn. split; intros [H1 H2]; split; auto.
+  - intros ->. rewrite entry_eqb_refl in H2. discriminate.
+  - destruct (entry_eqb e x) eqn:E; [|reflexivity]. apply entry_eqb_eq in E. congruence.
+Qed.
+Lemma mem_entry_true e l : mem_entry e l = true <-> In e l.
+Proof.
+  unfold mem_entry. rewrite existsb_exists. split.
+  - intros [x [H1 H2]]. apply entry_eqb_eq in H2. now subst.
+  - intros H. exists e. split; [assumption | apply entry_eqb_refl].
+Qed.
+Lemma busy_false g l : (forall x, In x l -> eg x <> g) -> busy g l = false.
+Proof.
+  intros H. unfold busy. destruct (existsb _ l) eqn:E; [|reflexivity].
+  apply existsb_exists in E. destruct E as [x [H1 H2]]. apply N.eqb_eq in H2. exfalso. eapply H; eauto.
+Qed.
+
+Lemma NoDup_app_disjoint {A} (a b : list A) x : NoDup (a ++ b) -> In x a -> In x b -> False.
+Proof.
+  induction a as [|y a IH]; cbn; [contradiction|]. intros N [<- | Ha] Hb.
+  - inversion N; subst. apply H1. apply in_or_app. now right.
+  - inversion N; subst. eauto.
+Qed.
+Lemma NoDup_app_r {A} (a b : list A) : NoDup (a ++ b) -> NoDup b.
+Proof. induction a as [|y a IH]; cbn; [trivial|]. intros N. inversion N; auto. Qed.
+
+Lemma inflight_eg s g x : Inv s -> lp s g = LSending x \/ lp s g = LSent x -> eg x = g.
+Proof. intros I [H | H]; [apply (i_sending _ I _ _ H) | apply (i_sent _ I _ _ H)]. Qed.
+Lemma sending_not_hist s g e : Inv s -> lp s g = LSending e -> ~ In e (hist s).
+Proof.
+  intros I L Hin. pose proof (i_lt _ I _ Hin) as X. destruct (i_sending _ I _ _ L) as [Eg En].
+  unfold sent in X. rewrite Eg, L in X. lia.
+Qed.
+Lemma hist_NoDup s : Inv s -> NoDup (hist s).
+Proof. intros I. apply ord_NoDup. apply (i_ord _ I). Qed.
+
+Record Sim (s : st) (a : ast) : Prop := mkSim {
+  r_fly : forall x, In x (a_fly a) <-> exists g, lp s g = LSending x \/ lp s g = LSent x;
+  r_next : forall g, lookupN g (a_next a) = cnt s g;
+  r_unw : forall x, lookupE x (a_unw a) <> None <-> (In x (q s) \/ exists g, lp s g = LSending x);
+  r_unw_t : forall x c, In (x, c) (a_unw a) -> c < a_t a;
+  r_ret : forall x r, In (x, r) (a_ret a) -> In x (q s) /\ In x (retd s) /\ r < a_t a;
+  r_fifo : forall l1 e l2, q s = l1 ++ e :: l2 -> forall e1 c r1, In e1 l2 ->
+           lookupE e (a_unw a) = Some c -> In (e1, r1) (a_ret a) -> c < r1;
+  r_fl : match fl s, a_fl a with
+         | FNone, ANone => True
+         | FCalled, ACalled f | FRequested, ACalled f =>
+             f < a_t a /\ forall x r, In (x, r) (a_ret a) -> r <= f -> In x (pre_call s)
+         | FReturned _, ARet => True
+         | _, _ => False
+         end;
+  r_done : a_done a = true -> fp s = Done
+}.
+
+Lemma Sim_init : Sim init ainit.
+Proof.
+  constructor; cbn; try (intros; contradiction); try reflexivity; try exact I; try discriminate.
+  - intros x. split; [contradiction | intros [g [H | H]]; discriminate].
+  - intros x. split; [intros H; now contradiction H | intros [[] | [g H]]; discriminate].
+Qed.
+
+Lemma snoc_decomp {A} (q : list A) e l1 e0 l2 :
+  q ++ [e] = l1 ++ e0 :: l2 -> (l2 = []) \/ exists l2', l2 = l2' ++ [e] /\ q = l1 ++ e0 :: l2'.
+Proof.
+  destruct l2 as [|y l2'] using rev_ind; [now left|]. intros H. right.
+  replace (l1 ++ e0 :: l2' ++ [y]) with ((l1 ++ e0 :: l2') ++ [y]) in H by (rewrite <- app_assoc; reflexivity).
+  apply app_inj_tail in H. destruct H as [-> ->]. now exists l2'.
+Qed.
+
+Lemma sim_take s a e p nx s' :
+  Inv s -> Sim s a -> take s e p nx = Some s' ->
+  exists a', astep a (EWrite e) = Some a' /\ Sim s' a'.
+Proof.
+  intros I S Hs. unfold take in Hs. destruct (q s) as [|e' r] eqn:Q. { destruct (fp s); discriminate. }
+  destruct (_ && _) eqn:C in Hs; [|discriminate]. inversion Hs; subst s'; clear Hs.
+  apply andb_true_iff in C. destruct C as [Cp Ce]. apply entry_eqb_eq in Ce. subst e'.
+  assert (ND : fp s <> Done) by (intros X; rewrite X in Cp; destruct p; discriminate).
+  destruct S as [S1 S2 S3 S4 S5 S6 S7 S8].
+  assert (NQ : NoDup (e :: r)). { rewrite <- Q. pose proof (hist_NoDup _ I) as N. rewrite (i_hist _ I) in N. eapply NoDup_app_r; eauto. }
+  destruct (lookupE e (a_unw a)) as [c|] eqn:LE.
+  2:{ exfalso. apply (proj2 (S3 e)); [left; rewrite Q; now left | exact LE]. }
+  assert (AD : a_done a = false). { destruct (a_done a); [exfalso; apply ND; auto | reflexivity]. }
+  assert (FB : forallb (fun p0 => entry_eqb e (fst p0) || (c <? snd p0)) (a_ret a) = true).
+  { apply forallb_forall. intros [e1 r1] Hin. cbn. destruct (entry_eqb e e1) eqn:E; [reflexivity|]. cbn.
+    apply N.ltb_lt. destruct (S5 _ _ Hin) as (Hq & _ & _). rewrite Q in Hq. destruct Hq as [<- | Hq]; [rewrite entry_eqb_refl in E; discriminate|].
+    apply (S6 [] e r Q e1 c r1 Hq LE Hin). }
+  unfold astep. rewrite LE, AD, FB. cbn. eexists. split; [reflexivity|].
+  constructor; cbn; auto.
+  - intros x. rewrite lookupE_removeE. destruct (entry_eqb e x) eqn:E.
+    + apply entry_eqb_eq in E. subst x. split; [intros H; now contradiction H|]. intros [Hin | [g L]]; exfalso.
+      * inversion NQ; auto.
+      * apply (sending_not_hist _ _ _ I L). rewrite (i_hist _ I), Q. apply in_or_app. right. now left.
+    + rewrite S3, Q. split; intros [H | H]; auto; [destruct H as [<- | H]; [rewrite entry_eqb_refl in E; discriminate | now left] | left; now right].
+  - intros x c0 Hin. apply In_removeE in Hin. destruct Hin as [Hin _]. pose proof (S4 _ _ Hin). lia.
+  - intros x r0 Hin. apply In_removeE in Hin. destruct Hin as [Hin Ne]. destruct (S5 _ _ Hin) as (Hq & Hr & Ht).
+    rewrite Q in Hq. destruct Hq as [<- | Hq]; [contradiction|]. repeat split; auto. lia.
+  - intros l1 e0 l2 Hq e1 c0 r1 Hin1 L0 Hin. rewrite lookupE_removeE in L0. destruct (entry_eqb e e0); [discriminate|].
+    apply In_removeE in Hin. destruct Hin as [Hin _].
+    eapply (S6 (e :: l1) e0 l2); [| exact Hin1 | exact L0 | exact Hin]. rewrite Q, Hq. reflexivity.
+  - destruct (fl s), (a_fl a); auto; destruct S7 as [Hf Hp]; (split; [lia|]); intros x r0 Hin; apply In_removeE in Hin; destruct Hin as [Hin _]; eauto.
+  - intros X. rewrite X in AD. discriminate.
+Qed.
+
+Lemma sim_internal_fp s a nfp :
+  Sim s a -> fp s <> Done ->
+  Sim (mk (q s) nfp (req s) (fl s) (lp s) (cnt s) (hist s) (written s) (retd s) (pre_call s) (pre_req s)) a.
+Proof.
+  intros [S1 S2 S3 S4 S5 S6 S7 S8] ND. constructor; cbn; auto. intros X. exfalso. auto.
+Qed.
+
+Lemma sim_step cap s a l s' :
+  Inv s -> Sim s a -> step cap s l = Some s' ->
+  match vis l with
+  | Some ev => exists a', astep a ev = Some a' /\ Sim s' a'
+  | None => Sim s' a
+  end.
+Proof.
+  intros I S Hs. destruct l; cbn [vis]; unfold step, gstep in Hs.
+  - (* LogCall *)
+    destruct (lp s (eg e)) eqn:L; try discriminate. destruct (en e =? cnt s (eg e)) eqn:C; [|discriminate].
+    apply N.eqb_eq in C. inversion Hs; subst s'; clear Hs.
+    destruct S as [S1 S2 S3 S4 S5 S6 S7 S8].
+    assert (B : busy (eg e) (a_fly a) = false).
+    { apply busy_false. intros x Hin Eg. apply S1 in Hin. destruct Hin as [g H]. pose proof (inflight_eg _ _ _ I H) as X.
+      rewrite <- X, Eg, L in H. destruct H; discriminate. }
+    unfold astep. rewrite B, S2, C, N.eqb_refl. cbn. eexists. split; [reflexivity|].
+    assert (NS : forall g x, lp s g = LSending x \/ lp s g = LSent x -> g <> eg e).
+    { intros g x H ->. rewrite L in H. destruct H; discriminate. }
+    constructor; cbn; auto.
+    + intros x. split.
+      * intros [<- | Hin]; [exists (eg e); left; apply upd_same|]. apply S1 in Hin. destruct Hin as [g H]. exists g.
+        rewrite upd_other; [exact H | eapply NS; eauto].
+      * intros [g H]. unfold upd in H. destruct (g =? eg e) eqn:E.
+        -- destruct H as [H | H]; inversion H. now left.
+        -- right. apply S1. now exists g.
+    + intros g. rewrite lookupN_setN. unfold upd. destruct (g =? eg e) eqn:E; [|apply S2].
+      apply N.eqb_eq in E. subst g. lia.
+    + intros x. rewrite lookupE_app. split.
+      * destruct (lookupE x (a_unw a)) eqn:LX.
+        -- intros _. assert (X : lookupE x (a_unw a) <> None) by (rewrite LX; discriminate). apply S3 in X.
+           destruct X as [X | [g X]]; [now left | right]. exists g. rewrite upd_other; [exact X | eapply NS; eauto].
+        -- destruct (entry_eqb x e) eqn:E; [|intros H; now contradiction H]. apply entry_eqb_eq in E. subst x.
+           intros _. right. exists (eg e). apply upd_same.
+      * intros H. destruct (lookupE x (a_unw a)) eqn:LX; [discriminate|]. destruct (entry_eqb x e) eqn:E; [discriminate|].
+        exfalso. destruct H as [H | [g H]].
+        -- apply (proj2 (S3 x)); [now left | exact LX].
+        -- unfold upd in H. destruct (g =? eg e) eqn:E'.
+           ++ inversion H; subst. rewrite entry_eqb_refl in E. discriminate.
+           ++ apply (proj2 (S3 x)); [right; now exists g | exact LX].
+    + intros x c Hin. apply in_app_or in Hin. destruct Hin as [Hin | [X | []]]; [pose proof (S4 _ _ Hin); lia | inversion X; lia].
+    + intros x r Hin. destruct (S5 _ _ Hin) as (A & B' & C'). repeat split; auto. lia.
+    + intros l1 e0 l2 Hq e1 c r1 Hin1 L0 Hin. rewrite lookupE_app in L0.
+      destruct (lookupE e0 (a_unw a)) eqn:LX.
+      * inversion L0; subst. eapply S6; eauto.
+      * exfalso. apply (proj2 (S3 e0)); [left; rewrite Hq; apply in_or_app; right; now left | exact LX].
+    + destruct (fl s), (a_fl a); auto; destruct S7 as [Hf Hp]; (split; [lia | exact Hp]).
+  - (* Enq *)
+    destruct (lp s g) eqn:L; try discriminate. destruct (N.of_nat (length (q s)) <? cap); [|discriminate].
+    inversion Hs; subst s'; clear Hs.
+    destruct S as [S1 S2 S3 S4 S5 S6 S7 S8]. constructor; cbn; auto.
+    + intros x. rewrite S1. split; intros [g' H]; unfold upd in *.
+      * destruct (N.eq_dec g' g) as [-> | Ne].
+        -- exists g. rewrite N.eqb_refl. rewrite L in H. destruct H as [H | H]; inversion H. now right.
+        -- exists g'. destruct (g' =? g) eqn:E; [apply N.eqb_eq in E; contradiction | exact H].
+      * destruct (g' =? g) eqn:E.
+        -- apply N.eqb_eq in E. subst g'. destruct H as [H | H]; inversion H; subst. exists g. now left.
+        -- now exists g'.
+    + intros x. rewrite S3. split.
+      * intros [H | [g' H]]; [left; apply in_or_app; now left|].
+        destruct (N.eq_dec g' g) as [-> | Ne].
+        -- rewrite L in H. inversion H; subst. left. apply in_or_app. right. now left.
+        -- right. exists g'. rewrite upd_other; auto.
+      * intros [H | [g' H]].
+        -- apply in_app_or in H. destruct H as [H | [<- | []]]; [now left | right; now exists g].
+        -- unfold upd in H. destruct (g' =? g); [discriminate | right; now exists g'].
+    + intros x r Hin. destruct (S5 _ _ Hin) as (A & B & C). repeat split; auto. apply in_or_app. now left.
+    + intros l1 e0 l2 Hq e1 c r1 Hin1 L0 Hin. apply snoc_decomp in Hq. destruct Hq as [-> | [l2' [-> Hq]]]; [contradiction|].
+      apply in_app_or in Hin1. destruct Hin1 as [Hin1 | [<- | []]].
+      * eapply S6; eauto.
+      * exfalso. destruct (S5 _ _ Hin) as (A & _ & _). apply (sending_not_hist _ _ _ I L). rewrite (i_hist _ I). apply in_or_app. now right.
+  - (* LogRet *)
+    destruct (lp s (eg e)) as [| |e'] eqn:L; try discriminate. destruct (entry_eqb e e') eqn:C; [|discriminate].
+    apply entry_eqb_eq in C. subst e'. inversion Hs; subst s'; clear Hs.
+    destruct S as [S1 S2 S3 S4 S5 S6 S7 S8].
+    assert (M : mem_entry e (a_fly a) = true). { apply mem_entry_true. apply S1. exists (eg e). now right. }
+    unfold astep. rewrite M. eexists. split; [reflexivity|].
+    assert (EQ : In e (q s) \/ lookupE e (a_unw a) = None).
+    { destruct (lookupE e (a_unw a)) eqn:LX; [|now right]. left.
+      assert (X : lookupE e (a_unw a) <> None) by (rewrite LX; discriminate). apply S3 in X. destruct X as [X | [g X]]; [exact X|].
+      exfalso. pose proof (inflight_eg _ _ _ I (or_introl X)) as Y. rewrite <- Y, L in X. discriminate. }
+    constructor; cbn; auto.
+    + intros x. rewrite filter_In, S1. split.
+      * intros [[g H] Ne]. exists g. rewrite upd_other; [exact H|]. intros ->. rewrite L in H. destruct H as [H | H]; inversion H; subst.
+        rewrite entry_eqb_refl in Ne. discriminate.
+      * intros [g H]. unfold upd in H. destruct (g =? eg e) eqn:E; [destruct H; discriminate|]. split; [now exists g|].
+        destruct (entry_eqb e x) eqn:E'; [|reflexivity]. apply entry_eqb_eq in E'. subst x.
+        pose proof (inflight_eg _ _ _ I H) as Y. subst g. rewrite N.eqb_refl in E. discriminate.
+    + intros x. rewrite S3. split; (intros [H | [g H]]; [now left | right; exists g]); unfold upd in *.
+      * destruct (g =? eg e) eqn:E; [apply N.eqb_eq in E; subst g; rewrite L in H; discriminate | exact H].
+      * destruct (g =? eg e); [discriminate | exact H].
+    + intros x c Hin. pose proof (S4 _ _ Hin). lia.
+    + intros x r Hin. assert (Old : In (x, r) (a_ret a) -> In x (q s) /\ In x (e :: retd s) /\ r < a_t a + 1).
+      { intros H. destruct (S5 _ _ H) as (A & B & C). repeat split; auto; [now right | lia]. }
+      destruct (lookupE e (a_unw a)) eqn:LX; [|auto]. apply in_app_or in Hin. destruct Hin as [Hin | [X | []]]; [auto|].
+      inversion X; subst. destruct EQ as [EQ | EQ]; [|discriminate]. repeat split; [exact EQ | now left | lia].
+    + intros l1 e0 l2 Hq e1 c r1 Hin1 L0 Hin. destruct (lookupE e (a_unw a)) eqn:LX; [|eapply S6; eauto].
+      apply in_app_or in Hin. destruct Hin as [Hin | [X | []]]; [eapply S6; eauto|]. inversion X; subst.
+      apply lookupE_In in L0. apply (S4 _ _ L0).
+    + assert (Sub : forall x r, In (x, r) (match lookupE e (a_unw a) with Some _ => a_ret a ++ [(e, a_t a)] | None => a_ret a end) ->
+                      In (x, r) (a_ret a) \/ r = a_t a).
+      { intros x r Hin. destruct (lookupE e (a_unw a)); [|now left]. apply in_app_or in Hin. destruct Hin as [Hin | [X | []]]; [now left|]. inversion X. now right. }
+      destruct (fl s), (a_fl a); auto; destruct S7 as [Hf Hp]; (split; [lia|]); intros x r Hin Hle; apply Sub in Hin; (destruct Hin as [Hin | ->]; [eauto | lia]).
+  - (* FlushCall *)
+    destruct (fl s) eqn:F; try discriminate. inversion Hs; subst s'; clear Hs.
+    destruct S as [S1 S2 S3 S4 S5 S6 S7 S8]. rewrite F in S7. unfold astep. destruct (a_fl a) eqn:AF; try contradiction.
+    eexists. split; [reflexivity|]. constructor; cbn; auto.
+    + intros x c Hin. pose proof (S4 _ _ Hin). lia.
+    + intros x r Hin. destruct (S5 _ _ Hin) as (A & B & C). repeat split; auto. lia.
+    + split; [lia|]. intros x r Hin _. apply (S5 _ _ Hin).
+  - (* Request *)
+    destruct (fl s) eqn:F; try discriminate. inversion Hs; subst s'; clear Hs.
+    destruct S as [S1 S2 S3 S4 S5 S6 S7 S8]. rewrite F in S7. constructor; cbn; auto.
+  - (* FlushRet *)
+    destruct (fl s) eqn:F; try discriminate. destruct (negb done || _) eqn:C in Hs; [|discriminate].
+    inversion Hs; subst s'; clear Hs.
+    destruct S as [S1 S2 S3 S4 S5 S6 S7 S8]. rewrite F in S7. unfold astep. destruct (a_fl a) as [|f|] eqn:AF; try contradiction.
+    destruct S7 as [Hf Hp].
+    assert (W : forall x c, In (x, c) (a_unw a) -> c < a_t a + 1) by (intros x c Hin; pose proof (S4 _ _ Hin); lia).
+    assert (Rr : forall x r, In (x, r) (a_ret a) -> In x (q s) /\ In x (retd s) /\ r < a_t a + 1).
+    { intros x r Hin. destruct (S5 _ _ Hin) as (A & B & C'). repeat split; auto. lia. }
+    destruct done.
+    + cbn in C. destruct (fp s) eqn:P; try discriminate.
+      assert (FB : forallb (fun p0 => f <? snd p0) (a_ret a) = true).
+      { apply forallb_forall. intros [x r] Hin. cbn. apply N.ltb_lt. destruct (N.lt_ge_cases f r) as [Hlt | Hge]; [exact Hlt|]. exfalso.
+        pose proof (Hp _ _ Hin Hge) as PC. destruct (S5 _ _ Hin) as (Hq & _ & _).
+        assert (Rq : req s = true) by (apply (i_fl_req _ I); now left).
+        pose proof (prefix_incl _ _ (i_done _ I P) _ (i_pc2 _ I Rq _ PC)) as Hw.
+        pose proof (hist_NoDup _ I) as N. rewrite (i_hist _ I) in N. eapply NoDup_app_disjoint; eauto. }
+      rewrite FB. eexists. split; [reflexivity|]. constructor; cbn; auto.
+    + eexists. split; [reflexivity|]. constructor; cbn; auto.
+  - (* PollTake *) eapply sim_take; eauto.
+  - (* PollEmpty *)
+    destruct (fp s) eqn:P; try discriminate. destruct (q s) eqn:Q; try discriminate. inversion Hs; subst s'; clear Hs.
+    rewrite <- Q. apply sim_internal_fp; [exact S | congruence].
+  - (* InnerTake *) eapply sim_take; eauto.
+  - (* InnerSync *)
+    destruct (fp s) eqn:P; try discriminate. destruct (req s) eqn:R; [|discriminate]. inversion Hs; subst s'; clear Hs.
+    rewrite <- R. apply sim_internal_fp; [exact S | congruence].
+  - (* DrainTake *) eapply sim_take; eauto.
+  - (* DrainDone *)
+    destruct (fp s) eqn:P; try discriminate. destruct (q s) eqn:Q; try discriminate. inversion Hs; subst s'; clear Hs.
+    rewrite <- Q. apply sim_internal_fp; [exact S | congruence].
+Qed.
+
+Lemma sim_run cap ls : forall s a s', Inv s -> Sim s a -> run cap s ls = Some s' ->
+  exists a', arun a (visible ls) = Some a' /\ Sim s' a'.
+Proof.
+  induction ls as [|l ls IH]; intros s a s' I S Hr.
+  - inversion Hr; subst. exists a. split; [reflexivity | exact S].
+  - rewrite run_cons in Hr. destruct (step cap s l) as [m|] eqn:E; [|discriminate].
+    pose proof (sim_step _ _ _ _ _ I S E) as X. pose proof (Inv_step _ _ _ _ I E) as I'. cbn [visible].
+    destruct (vis l) as [ev|].
+    + destruct X as [a1 [A1 S1]]. destruct (IH _ _ _ I' S1 Hr) as [a' [A' S']]. exists a'. split; [|exact S'].
+      cbn [arun]. rewrite A1. exact A'.
+    + apply (IH _ _ _ I' X Hr).
+Qed.
+
+(* trace validation is sound: whatever the schedule, what an observer of the model sees is accepted *)
+Theorem visible_trace_accepted cap ls s : run cap init ls = Some s -> accepts (visible ls) = true.
+Proof.
+  intros H. destruct (sim_run _ _ _ _ _ Inv_init Sim_init H) as [a' [A _]]. unfold accepts. rewrite A. reflexivity.
+Qed.
+
+(* ---------- concrete instances (non-vacuity) and the code before the fix ---------- *)
+
+Definition e00 := mkE 0 0 0.
+Definition e01 := mkE 0 1 1.
+Definition e10 := mkE 1 0 0.
+
+(* two goroutines, two writers; the flusher is between its two selects when the last entry and the request arrive,
+   and its select picks the request: the drain loop writes the entry before the acknowledgement *)
+Definition sched_fixed : list label :=
+  [LogCall e00; Enq 0; LogRet e00; PollTake e00; LogCall e10; PollEmpty; LogCall e01; Enq 0; Enq 1; LogRet e10; LogRet e01;
+   FlushCall; Request; InnerSync; DrainTake e01; DrainTake e10; DrainDone; FlushRet true].
+Example sched_fixed_runs : exists s, run 4 init sched_fixed = Some s /\ written s = [e00; e01; e10] /\ fl s = FReturned true /\ q s = [].
+Proof. eexists. vm_compute. repeat split. Qed.
+Example sched_fixed_instance :
+  exists l1 l2, sched_fixed = l1 ++ FlushCall :: l2 ++ FlushRet true :: [] /\ rets_of l1 = [e00; e10; e01].
+Proof. exists (firstn 11 sched_fixed), (firstn 5 (skipn 12 sched_fixed)). vm_compute. split; reflexivity. Qed.
+Example sched_fixed_accepted : accepts (visible sched_fixed) = true.
+Proof. vm_compute. reflexivity. Qed.
+
+(* the code before the fix (gstep false): the same schedule up to the select, which returns at once; FlushLogger
+   returns on the acknowledgement with two returned entries unwritten — and the specification machine rejects
+   exactly that trace *)
+Definition sched_unfixed : list label :=
+  [LogCall e00; Enq 0; LogRet e00; PollTake e00; LogCall e10; PollEmpty; LogCall e01; Enq 0; Enq 1; LogRet e10; LogRet e01;
+   FlushCall; Request; InnerSync; FlushRet true].
+Example before_fix_loses_entries :
+  exists s, grun false 4 init sched_unfixed = Some s /\ fl s = FReturned true /\ written s = [e00] /\
+            pre_call s = [e01; e10; e00] /\ q s = [e01; e10].
+Proof. eexists. vm_compute. repeat split. Qed.
+Example before_fix_trace_rejected : accepts (visible sched_unfixed) = false.
+Proof. vm_compute. reflexivity. Qed.
+Example repaired_model_refuses_that_schedule : run 4 init sched_unfixed = None.
+Proof. vm_compute. reflexivity. Qed.
+
+(* the specification machine is not trivially true: duplicated, reordered, invented and late Writes are rejected *)
+Example rejects_duplicate : accepts [ECall e00; ERet e00; EWrite e00; EWrite e00] = false.
+Proof. vm_compute. reflexivity. Qed.
+Example rejects_reordered : accepts [ECall e00; ERet e00; ECall e01; ERet e01; EWrite e01; EWrite e00] = false.
+Proof. vm_compute. reflexivity. Qed.
+Example rejects_fifo_violation : accepts [ECall e00; ERet e00; ECall e10; ERet e10; EWrite e10; EWrite e00] = false.
+Proof. vm_compute. reflexivity. Qed.
+Example accepts_concurrent_either_order :
+  accepts [ECall e00; ECall e10; ERet e00; ERet e10; EWrite e10; EWrite e00] = true /\
+  accepts [ECall e00; ECall e10; ERet e00; ERet e10; EWrite e00; EWrite e10] = true.
+Proof. vm_compute. split; reflexivity. Qed.
+Example rejects_invented : accepts [EWrite e00] = false.
+Proof. vm_compute. reflexivity. Qed.
+Example rejects_wrong_writer : accepts [ECall e00; ERet e00; EWrite (mkE 0 0 1)] = false.
+Proof. vm_compute. reflexivity. Qed.
+Example rejects_write_after_ack : accepts [ECall e00; EFlushCall; EFlushRet true; ERet e00; EWrite e00] = false.
+Proof. vm_compute. reflexivity. Qed.
+Example accepts_timer_return_with_backlog : accepts [ECall e00; ERet e00; EFlushCall; EFlushRet false; EWrite e00] = true.
+Proof. vm_compute. reflexivity. Qed.
